@@ -534,28 +534,7 @@ func c8SingleRelease(c *Ctx) {
 	// ioCore.Write
 	w := c.Method(CorePath, "ioCore", "Write")
 	if c.Anchor("R8.4", "zapcore.ioCore.Write", w != nil) {
-		var enc, outW, free *ssa.Call
-		nfree := 0
-		for _, cl := range Calls(w) {
-			call, _ := cl.(*ssa.Call)
-			switch {
-			case IsCallTo(cl, "(go.uber.org/zap/zapcore.Encoder).EncodeEntry"):
-				enc = call
-			case IsCallTo(cl, "(io.Writer).Write", "(go.uber.org/zap/zapcore.WriteSyncer).Write"):
-				outW = call
-			case IsCallTo(cl, "(*go.uber.org/zap/buffer.Buffer).Free"):
-				free = call
-				nfree++
-			}
-		}
-		ok := enc != nil && outW != nil && free != nil && nfree == 1
-		if ok {
-			bufD := Desc(enc) + "#0"
-			ok = Desc(Args(free)[0]) == bufD && Desc(Args(outW)[1]) == "Bytes("+bufD+")" && Dominates(outW, free) && Desc(Args(outW)[0]) == "c.out"
-			// freed on every path after a successful encode
-			start := successStart(w, enc)
-			ok = ok && !ExistsPath(w, start, IsReturn, func(i ssa.Instruction) bool { return i == ssa.Instruction(free) })
-		}
+		ok, _ := ioCoreWriteShape(c, w)
 		c.Check(ok, "R8.4", w.String(), "encoded-buffer-freed-once-after-write", w.Pos(), "the buffer returned by EncodeEntry is written to c.out whole (buf.Bytes()) and freed exactly once, after the write, on every path that received it")
 	}
 }
